@@ -145,7 +145,7 @@ def rebuild_args(spec):
 
 def san_corpus(ctx, asan_dir):
     K = 16
-    out = os.path.join(core.VERIF, 'build', 'run', 'c17_' + ctx.tier)
+    out = os.path.join(core.VERIF, 'build', 'run', 'c17_' + ctx.tier + core.TAG)
     shutil.rmtree(out, ignore_errors=True)
     os.makedirs(out)
     env = san_env(asan_dir)
@@ -219,7 +219,7 @@ def san_corpus(ctx, asan_dir):
 
 def run_one_under_asan(asan_dir, rec, tag, timeout=120):
     """run a single kernel call (dict kernel,args,case) in a sanitizer subprocess -> (report or None, stderr)"""
-    d = os.path.join(core.VERIF, 'build', 'run', 'c17_single')
+    d = os.path.join(core.VERIF, 'build', 'run', 'c17_single' + core.TAG)
     os.makedirs(d, exist_ok=True)
     path = os.path.join(d, tag + '.pkl')
     with open(path, 'wb') as f:
